@@ -48,6 +48,7 @@ class ReachingDefs:
         self.defs: List[Def] = []
         self.stmt_env_in: Dict[int, Env] = {}
         self.return_envs: List[Tuple[ast.Return, Env]] = []
+        self._def_memo: Dict[tuple, Def] = {}
         env: Dict[str, frozenset] = {}
         if isinstance(func_node, (ast.FunctionDef, ast.AsyncFunctionDef, ast.Lambda)):
             a = func_node.args
@@ -57,12 +58,21 @@ class ReachingDefs:
                 self.defs.append(d)
                 env[arg.arg] = frozenset([d])
         for n in extra_params:
-            d = Def(n, None, None, "param")
-            self.defs.append(d)
+            d = self._mk(n, None, None, "param")
             env[n] = frozenset([d])
         self._loops: List[dict] = []
         body = func_node.body if isinstance(func_node.body, list) else [ast.Expr(value=func_node.body)]
         self.exit_env = self._block(body, env)
+
+    def _mk(self, name, stmt, value, kind, slot=None, line=0) -> Def:
+        """One Def object per (statement, name, slot, kind), however often the loop fixpoint revisits it."""
+        key = (id(stmt), name, slot, kind, id(value))
+        d = self._def_memo.get(key)
+        if d is None:
+            d = Def(name, stmt, value, kind, slot, line)
+            self._def_memo[key] = d
+            self.defs.append(d)
+        return d
 
     # ------------------------------------------------------------------
     def _block(self, body: List[ast.stmt], env: Env) -> Env:
@@ -101,8 +111,7 @@ class ReachingDefs:
             a = e.args
             for arg in list(a.posonlyargs) + list(a.args) + list(a.kwonlyargs) + (
                     [a.vararg] if a.vararg else []) + ([a.kwarg] if a.kwarg else []):
-                d = Def(arg.arg, e, None, "param", line=e.lineno)
-                self.defs.append(d)
+                d = self._mk(arg.arg, e, None, "param", line=e.lineno)
                 cenv[arg.arg] = frozenset([d])
             self._use(e.body, cenv)
             return
@@ -121,9 +130,8 @@ class ReachingDefs:
     def _bind(self, target: ast.AST, value: Optional[ast.AST], env: Dict[str, frozenset], stmt: ast.AST,
               kind: str, slot: Tuple[int, ...] = ()):
         if isinstance(target, ast.Name):
-            d = Def(target.id, stmt, value, kind if not slot else "unpack", slot or None,
+            d = self._mk(target.id, stmt, value, kind if not slot else "unpack", slot or None,
                     getattr(stmt, "lineno", getattr(target, "lineno", 0)))
-            self.defs.append(d)
             env[target.id] = frozenset([d])
         elif isinstance(target, (ast.Tuple, ast.List)):
             for i, t in enumerate(target.elts):
@@ -144,9 +152,8 @@ class ReachingDefs:
                 root = root.value
             if isinstance(root, ast.Name) and root.id not in ("self", "cls"):
                 # (attribute state of `self` is not modelled as a redefinition of `self`)
-                d = Def(root.id, stmt, value, "item", None, getattr(stmt, "lineno", 0))
+                d = self._mk(root.id, stmt, value, "item", None, getattr(stmt, "lineno", 0))
                 d.target = target  # type: ignore
-                self.defs.append(d)
                 env[root.id] = env.get(root.id, frozenset()) | frozenset([d])
         elif isinstance(target, ast.Starred):
             self._bind(target.value, value, env, stmt, kind, slot)
@@ -169,9 +176,8 @@ class ReachingDefs:
             t = st.target
             if isinstance(t, ast.Name):
                 self.use_defs[id(t)] = env.get(t.id, frozenset())
-                d = Def(t.id, st, st, "aug", None, st.lineno)
-                d.prev = env.get(t.id, frozenset())  # type: ignore
-                self.defs.append(d)
+                d = self._mk(t.id, st, st, "aug", None, st.lineno)
+                d.prev = getattr(d, "prev", frozenset()) | env.get(t.id, frozenset())  # type: ignore
                 env[t.id] = frozenset([d])
             else:
                 self._bind(t, st, env, st, "item")
@@ -185,8 +191,7 @@ class ReachingDefs:
                                          "remove", "discard", "clear", "sort", "reverse")
                          or v.func.attr.endswith("_")):
                 n = v.func.value.id
-                d = Def(n, st, v, "item", None, st.lineno)
-                self.defs.append(d)
+                d = self._mk(n, st, v, "item", None, st.lineno)
                 env[n] = env.get(n, frozenset()) | frozenset([d])
             return env
         if isinstance(st, ast.Return):
@@ -204,8 +209,7 @@ class ReachingDefs:
         if isinstance(st, ast.Delete):
             for t in st.targets:
                 if isinstance(t, ast.Name):
-                    d = Def(t.id, st, None, "del", None, st.lineno)
-                    self.defs.append(d)
+                    d = self._mk(t.id, st, None, "del", None, st.lineno)
                     env[t.id] = frozenset([d])
                 else:
                     self._use(t, env)
@@ -236,8 +240,7 @@ class ReachingDefs:
             for h in st.handlers:
                 henv = dict(hin) if hin is not None else {}
                 if h.name:
-                    d = Def(h.name, h, None, "except", None, h.lineno)
-                    self.defs.append(d)
+                    d = self._mk(h.name, h, None, "except", None, h.lineno)
                     henv[h.name] = frozenset([d])
                 self._use(h.type, henv)
                 outs.append(self._block(h.body, henv))
@@ -250,20 +253,17 @@ class ReachingDefs:
                 return r2 if res is not None else None
             return res
         if isinstance(st, (ast.FunctionDef, ast.AsyncFunctionDef)):
-            d = Def(st.name, st, None, "assign", None, st.lineno)
-            self.defs.append(d)
+            d = self._mk(st.name, st, None, "assign", None, st.lineno)
             env[st.name] = frozenset([d])
             return env
         if isinstance(st, ast.ClassDef):
-            d = Def(st.name, st, None, "assign", None, st.lineno)
-            self.defs.append(d)
+            d = self._mk(st.name, st, None, "assign", None, st.lineno)
             env[st.name] = frozenset([d])
             return env
         if isinstance(st, (ast.Import, ast.ImportFrom)):
             for al in st.names:
                 n = al.asname or al.name.split(".")[0]
-                d = Def(n, st, None, "import", None, st.lineno)
-                self.defs.append(d)
+                d = self._mk(n, st, None, "import", None, st.lineno)
                 env[n] = frozenset([d])
             return env
         if isinstance(st, ast.Break):
@@ -327,7 +327,7 @@ class ReachingDefs:
     def defs_of(self, name_node: ast.Name) -> frozenset:
         return self.use_defs.get(id(name_node), frozenset())
 
-    def derives(self, expr: ast.AST, max_depth: int = 40, stop=None) -> "Derivation":
+    def derives(self, expr: ast.AST, max_depth: int = 40, stop=None, value_flow: bool = False) -> "Derivation":
         """Transitive closure: every Def and every expression node the value of `expr`
         may be computed from."""
         seen_defs: Set[int] = set()
@@ -356,11 +356,71 @@ class ReachingDefs:
             exprs.append(e)
             if depth > max_depth:
                 continue
-            for n in ast.walk(e):
+            for n in (value_walk(e) if value_flow else ast.walk(e)):
                 if isinstance(n, ast.Name) and isinstance(n.ctx, ast.Load):
                     for d in self.use_defs.get(id(n), ()):
                         push_def(d, depth)
         return Derivation(defs, exprs)
+
+
+_SHAPE_DONOR_METHODS = {"new_full", "new_zeros", "new_ones", "new_empty", "new_tensor", "size", "dim", "type_as",
+                        "numel", "expand_as", "view_as", "to"}
+_LIKE_FUNCS = {"zeros_like", "ones_like", "full_like", "empty_like", "rand_like", "randn_like"}
+_SHAPE_ATTRS = {"shape", "device", "dtype", "ndim"}
+
+
+def value_walk(e: ast.AST):
+    """Like ast.walk but follows only sub-expressions whose *values* flow into e's value: skips
+    comparisons and boolean masks, index arguments of gather/scatter, conditions of where /
+    masked_fill, the index half of topk/sort/max, and pure shape/dtype/device donors."""
+    stack = [e]
+    while stack:
+        n = stack.pop()
+        if isinstance(n, ast.Compare):
+            continue
+        if isinstance(n, ast.UnaryOp) and isinstance(n.op, (ast.Invert, ast.Not)):
+            continue
+        if isinstance(n, ast.Attribute) and n.attr in _SHAPE_ATTRS:
+            continue
+        if isinstance(n, ast.Subscript) and isinstance(n.value, ast.Call) and isinstance(n.value.func, ast.Attribute) \
+                and n.value.func.attr in ("topk", "sort", "max", "min") and isinstance(n.slice, ast.Constant) \
+                and n.slice.value == 1:
+            continue
+        yield n
+        if isinstance(n, ast.Call):
+            f = n.func
+            fname = f.attr if isinstance(f, ast.Attribute) else (f.id if isinstance(f, ast.Name) else "")
+            if isinstance(f, ast.Attribute):
+                if fname in _SHAPE_DONOR_METHODS:
+                    if fname == "to":
+                        stack.append(f.value)
+                    continue
+                if fname in _LIKE_FUNCS:
+                    continue
+                recv_is_module = isinstance(f.value, ast.Name) and f.value.id in ("torch", "F", "np", "math")
+                if not recv_is_module and not (isinstance(f.value, ast.Attribute) and u(f.value).startswith("torch.")):
+                    stack.append(f.value)
+                args = list(n.args)
+                if fname in ("gather", "index_select", "take_along_dim"):
+                    args = args[:1] if recv_is_module else []
+                    if recv_is_module and n.args:
+                        args = [n.args[0]]
+                elif fname in ("scatter", "scatter_", "scatter_add", "index_put", "masked_scatter"):
+                    args = args[2:] if not recv_is_module else [args[0]] + args[3:]
+                elif fname in ("masked_fill", "masked_fill_"):
+                    args = args[1:] if not recv_is_module else [args[0]] + args[2:]
+                elif fname == "where":
+                    args = args[1:] if recv_is_module else args[1:]
+                elif fname in ("view", "reshape", "expand", "unsqueeze", "squeeze", "transpose", "flatten", "clamp",
+                               "sum", "repeat", "permute", "topk", "sort"):
+                    args = [] if not recv_is_module else args[:1]
+                stack.extend(args)
+                stack.extend(k.value for k in n.keywords if k.arg not in ("device", "dtype", "dim", "out"))
+            else:
+                stack.extend(n.args)
+                stack.extend(k.value for k in n.keywords)
+            continue
+        stack.extend(ast.iter_child_nodes(n))
 
 
 @dataclass
